@@ -89,6 +89,9 @@ def render_sorted(src, rng, prof):
             bl = [f"  {tk} = B {n if n else zero}" for tk, n in src.tempo]
             others = [l for l in b if " = B " not in l]
             b = others[:1] + bl + others[1:] if others else bl
+        if t == "Song" and src.meta.get("resolution") == 0 and rng.random() < 0.5:
+            # a stale positive Resolution line further down does not rescue the chart: the first line is the field's line
+            b = b + [rng.choice(["  Resolution = 192", "  Resolution = 480", "Resolution = 1"])]
         secs.append((t, b))
     lines = []
     for t, b in secs:
@@ -120,9 +123,9 @@ def slice(ctx: fw.Ctx) -> fw.Outcome:
         if must and x != "E ValueError":
             out.violation("corrupt-" + fw.h(text), f"sync corruption `{name}` at position {pos} was not rejected with ValueError: {x[:60]}",
                           rp, observed=x[:200], promised="E ValueError")
-        if not must and not x.startswith("E "):
-            # a trailing zero tempo that governs nothing: allowed to parse, but then no query under it may return a time
-            pass
+        if x.startswith("E internal:"):
+            # rejected or not, a corrupted sync section never surfaces as an undocumented exception
+            out.violation("corrupt-" + fw.h(text), f"sync corruption `{name}` at position {pos} raised {x}", rp, observed=x[:200], promised="a chart or ValueError")
     queries(ctx, out)
     return out
 
